@@ -13,7 +13,7 @@ from registry import PROPS  # noqa: E402
 
 
 def sh(cmd, **kw):
-    return subprocess.run(cmd, shell=isinstance(cmd, str), stdout=subprocess.PIPE, stderr=subprocess.STDOUT, text=True, **kw)
+    return subprocess.run(cmd, shell=isinstance(cmd, str), stdout=subprocess.PIPE, stderr=subprocess.STDOUT, text=True, errors='replace', **kw)
 
 
 def build(repo, variant, drv, spec, log):
@@ -127,8 +127,8 @@ def main():
             errlog = os.path.join(VERIF, 'build', logdir, '%s.%s.%s.%d.err' % (pid, tier, drv, s))
             cmd = base + ['--shard', str(s), '--nshards', str(nshards), '--deadline', str(deadline), '--errlog', errlog]
             # shard output goes to files: a pipe that is not being read would block a chatty shard
-            outf = open(errlog[:-4] + '.out', 'w+')
-            errf = open(errlog[:-4] + '.stderr', 'w+')
+            outf = open(errlog[:-4] + '.out', 'w+', errors='replace')
+            errf = open(errlog[:-4] + '.stderr', 'w+', errors='replace')
             procs.append((s, errlog, subprocess.Popen(cmd, stdout=outf, stderr=errf, env=env, cwd=VERIF), outf, errf))
         for s, errlog, p, outf, errf in procs:
             p.wait()
